@@ -298,6 +298,25 @@ func (e *wEng) convPreserves(x *ssa.Convert) bool {
 	if needHi {
 		okHi = e.boundedAbove(v, thi, facts)
 	}
+	if ph, isPhi := x.X.(*ssa.Phi); isPhi && !(okLo && okHi) && !isInduction(ph) && (ph.Block() == x.Block() || ph.Block().Dominates(x.Block())) {
+		// a value chosen among several (`n := a; if b < n { n = b }`, min(a, b)): it is in range when
+		// each of the values is, under what holds on the edge over which it is chosen
+		okLo, okHi = true, true
+		for j, ed := range ph.Edges {
+			ev := e.lin(ed)
+			ef := e.edgeFacts(ph.Block().Preds[j], ph.Block())
+			if needLo {
+				if tlo.Sign() == 0 {
+					okLo = okLo && e.entails(ev, ef)
+				} else {
+					okLo = okLo && tlo.IsInt64() && e.entails(ev.addc(-tlo.Int64()), ef)
+				}
+			}
+			if needHi {
+				okHi = okHi && e.boundedAbove(ev, thi, ef)
+			}
+		}
+	}
 	ci.ok = okLo && okHi
 	switch {
 	case ci.ok:
